@@ -15,6 +15,9 @@ for d in sorted(glob.glob(os.path.join(HERE, 'seeded', '*', 'patch.diff'))):
     if sys.argv[1:] and not any(sid.startswith(p) for p in sys.argv[1:]):
         continue
     pid = json.load(open(os.path.join(os.path.dirname(d), 'meta.json')))['property']
+    rebased = os.path.join(os.path.dirname(d), 'patch_rebased.diff')     # same change on top of later fix: commits
+    if os.path.exists(rebased):
+        d = rebased
     if sh('git', '-C', REPO, 'apply', d).returncode != 0:
         print(sid, 'DOES-NOT-APPLY'); continue
     res = 'MISSED'
